@@ -152,3 +152,42 @@ func VerifC18_verbs_do_not_crash() {
 	tr.Transform(types.NewEndOfStreamMarker(ctx), &out, idc, odc)
 	verifReach("C18/verbs/end")
 }
+
+// Incomplete and odd verb command lines: every proper prefix of every command line of the palette
+// above (a flag left without its argument, a verb left without its required flags), plus
+// flag-only command lines of verbs whose parsers peek at the next word, go through the verb's REAL
+// ParseCLIFunc in both passes (doConstruct false, as the main command-line parser's first pass, and
+// true).  Refusing with an error (or the usage exit) is fine; a panic is the violation.
+//verif:opts engine-only maxpaths=400000 unwind=200
+func VerifC18_truncated_verb_command_lines() {
+	argvs := c18Argvs([]string{"0", "3"}[verifChoice("K", 2)])
+	argvs = append(argvs, [][]string{
+		{"sort", "-c"}, {"sort", "-n"}, {"sort", "-t"}, {"sort", "-c", "-r"}, {"sort", "-n", "-r"}, {"sort", "-t", "-r"},
+		{"sort", "-f"}, {"sort", "-r"}, {"sort", "-nf"}, {"sort", "-nr"}, {"sort", "-tf"}, {"sort", "-tr"}, {"sort", "-cr"},
+		{"split", "-n", "0", "-g"}, {"split", "-m"}, {"split", "--prefix"}, {"split", "-n", "2", "--ojson", "--ofs"},
+		{"join", "-f", "x", "-j"}, {"join", "--lp", "a", "--rp"}, {"join", "-s", "-i"},
+		{"cut", "-o", "-f"}, {"cut", "-r", "-f", "\""}, {"head", "-n"}, {"tail", "-g"}, {"nest", "--evar"}, {"nest", "--explode", "--values", "--across-records", "--nested-fs"},
+		{"reorder", "-e", "-f"}, {"rename", "-r"}, {"rename", "a"}, {"sec2gmt", "-1"}, {"sec2gmt", "--micros2gmt"}, {"fill-down", "-f"}, {"fill-empty", "-v"},
+		{"seqgen", "-f"}, {"seqgen", "--start"}, {"step", "-a", "ewma", "-d"}, {"step", "-a", "ewma", "-o"}, {"merge-fields", "-a"}, {"top", "-o"},
+		{"tee", "-p"}, {"tee", "-a"}, {"tee", "--ojson"}, {"put", "-s"}, {"put", "-f"}, {"put", "-e"}, {"filter", "-x"}, {"put", "-s", "a"}, {"put", "-q", "-S"},
+		{"having-fields", "--at-least"}, {"sec2str"}, {"sec2str", "x"}, {"split-lines"}, {"utf8-to-latin1", "-x"}, {"summary", "-a"}, {"summary", "-x"},
+		{"bootstrap", "-n"}, {"sample", "-k"}, {"shuffle", "-x"}, {"repeat", "-n"}, {"repeat", "-f"}, {"grep", "-i"}, {"grep"}, {"json-parse", "-k", "-f"}, {"fraction", "-f"}, {"histogram", "--lo"},
+		{"count-similar", "-g"}, {"count-similar", "-o"}, {"label"}, {"sparsify", "-s"}, {"template", "-t"}, {"template", "--fill-with"}, {"unsparsify", "-f"}, {"nothing", "-x"},
+	}...)
+	argv := argvs[verifChoice("verb", len(argvs))]
+	verifObserveStr("fn", argv[0])
+	n := 1 + verifChoice("words_kept", len(argv))
+	argv = argv[:n]
+	setup := LookUp(argv[0])
+	if setup == nil {
+		verifReach("C18/verbs-truncated/no-such-verb")
+		return
+	}
+	construct := verifChoice("second_pass", 2) == 1
+	// no recover: a panic ends the path as a violation labelled with its own site; the usage exit
+	// of a refused command line ends the path normally
+	argi := 0
+	setup.ParseCLIFunc(&argi, len(argv), argv, cli.DefaultOptions(), construct)
+	verifAssert(argi <= len(argv), "C18/verbs-truncated/parser-does-not-run-past-the-command-line")
+	verifReach("C18/verbs-truncated/end")
+}
